@@ -8,7 +8,7 @@ import (
 
 type c08Key string
 
-//verif:entry property=C08 tier=both bounds="n<=N handlers each sync/async x plain/context-aware; cancellation point in {never, before the call, by handler k (which may then panic)}; every subset of the four publish hooks" cover="cancelled-before,cancelled-by-handler,never-cancelled" N_quick=2 N_thorough=3
+//verif:entry property=C08 tier=both bounds="n<=N handlers each sync/async x plain/context-aware; cancellation point in {never, before the call (cancelled, or ended by its deadline), by handler k (which may then panic)}; event published as its own type or as an interface value; every subset of the four publish hooks" cover="cancelled-before,cancelled-by-handler,never-cancelled" N_quick=2 N_thorough=3
 func harnessC08Hooks() {
 	N := vParam("N", 2)
 	var mu sync.Mutex
@@ -111,9 +111,21 @@ func harnessC08Hooks() {
 		}
 	}
 	if cancelAt == -1 {
-		cancel()
+		if vBool() {
+			cancel()
+		} else {
+			// the context has ended by its deadline instead (Err() == DeadlineExceeded)
+			var stop context.CancelFunc
+			ctx, stop = context.WithTimeout(ctx, 0)
+			defer stop()
+		}
 	}
-	PublishContext(bus, ctx, evA{N: 42})
+	if vBool() {
+		PublishContext(bus, ctx, evA{N: 42})
+	} else {
+		// the same event handed over as an interface value
+		PublishContext[any](bus, ctx, evA{N: 42})
+	}
 	mu.Lock()
 	atReturn := len(trace)
 	mu.Unlock()
